@@ -19,6 +19,7 @@ type Profile struct {
 	Shape     func(t *rapid.T, op *Op) // property-specific shaping of a drawn op
 	ThoroughScale int // multiply block count in the thorough tier
 	Prefix    func(pick func(label string, n int) int) []Block // optional property-specific prefix blocks (choices still drawn from rapid)
+	VoteGen   func(pick func(label string, n int) int, numVals int, blockIdx int) []VoteSpec // optional per-block vote behaviour generator (replaces AbsentPM)
 }
 
 // rapid's integer generators are deliberately biased towards small magnitudes (geometric bit
@@ -244,7 +245,9 @@ func GenHistory(t *rapid.T, p *Profile, thorough bool) History {
 		for j := 0; j < nops; j++ {
 			b.Ops = append(b.Ops, genOp(t, p, nActors))
 		}
-		if uni(t, "misbehave", 1000) < p.AbsentPM {
+		if p.VoteGen != nil {
+			b.Votes = p.VoteGen(func(label string, n int) int { return uni(t, label, n) }, h.Genesis.NumValidators, i)
+		} else if uni(t, "misbehave", 1000) < p.AbsentPM {
 			vs := VoteSpec{Val: uni(t, "badVal", h.Genesis.NumValidators), Mode: pick(t, "voteMode", []int{1, 1, 2, 3, 4})}
 			if vs.Mode == 3 {
 				vs.Payload = pick(t, "payload", [][]byte{[]byte("null"), []byte("{}"), {}}) // what a failing honest signer sends
